@@ -258,6 +258,20 @@ def eval_let(needs, snap):
 EFFECT_CTX = ("enter", "exit", "renter", "rexit")
 
 
+def _exited_by_main(info, evs, j, aux):
+    """True when the exit event evs[j] of aux framer `aux` belongs to the exit of a frame that owns it: only exit
+    events follow until the exit action of a frame naming `aux` as one of its auxiliaries"""
+    for e in evs[j + 1:]:
+        if e["ctx"] not in EFFECT_CTX:
+            continue
+        if e["ctx"] != "exit":
+            return False
+        key = (e["framer"], e["frame"])
+        if aux in info.plain.get(key, []) or aux in info.cond.get(key, []):
+            return True
+    return False
+
+
 def guard_monitor(ctx, info, res):
     """C08: a frame is entered only if its `let` conditions (and its plain auxes' first-outline conditions)
     held at the latest attempt; a refused attempt has no exit/rexit/renter/enter effects and leaves the
@@ -297,6 +311,12 @@ def guard_monitor(ctx, info, res):
                                 if evs[k]["ctx"] != "benter":
                                     break
                 elif e["ctx"] in EFFECT_CTX:
+                    if fr in pending and info.sched[fr] == "aux" and e["ctx"] == "exit" and \
+                            _exited_by_main(info, evs, j, fr):
+                        # not an effect of the refused attempt: the main framer took a transition (or stopped) after
+                        # its aux ran, and the exit of the main frame exits the aux (aux frames first, then the frame)
+                        ctx.hit("aux_exited_by_main_after_refusal")
+                        pending.pop(fr, None)
                     if fr in pending:
                         ctx.fail("refused-attempt-had-effects",
                                  "tick %d: %s.%s %s action ran after an entry attempt of framer %s was refused" % (
@@ -516,6 +536,12 @@ def suspend_monitor(ctx, info, res):
                 later_trans = [j for j in own_fx if j > last_a] if completed else []
                 for j, e in enumerate(evs):
                     if e["framer"] != X or e["frame"] not in below:
+                        continue
+                    if e["ctx"] == "benter":
+                        # an entry guard evaluated for a transition attempted by a clause that is *not* suspended
+                        # (above the main frame, or an earlier clause of the main frame itself): the suspended frame
+                        # does not act; its own transitions / recurs would show as precur / recur events
+                        ctx.hit("guard_attempt_on_suspended_frame")
                         continue
                     if m_exited:
                         m_exit_at = [k for k in own_fx if evs[k]["frame"] == M and evs[k]["ctx"] == "exit"][0]
